@@ -609,6 +609,15 @@ udp_recv_disc(udp_ep *ep, udp_sp_msg *disc, const nng_sockaddr *sa)
 
 	p = udp_find_pipe(ep, sa);
 	if (p != NULL) {
+		// A peer that refuses the connection we are still setting up
+		// must fail the pending dial: closing the pipe takes it out
+		// of ep->pipes, so the timer would never expire it and the
+		// dial would wait forever (and never be retried).
+		if (ep->dialer && (p->state < PIPE_CONN_DONE) &&
+		    ((aio = nni_list_first(&ep->connaios)) != NULL)) {
+			nni_aio_list_remove(aio);
+			nni_aio_finish_error(aio, NNG_ECONNREFUSED);
+		}
 		p->closed = true;
 		while ((aio = nni_list_first(&p->rx_aios)) != NULL) {
 			nni_aio_list_remove(aio);
